@@ -772,4 +772,73 @@ example : ∃ K, ∀ quantum, K ≤ quantum → ∀ vfuel, ∃ s', run codeF {} 
   | ok u => exact h
 end Example7
 
+/-! ## 8. Singletons: `Load_Singleton` and extraction -/
+
+/-- **The host provides no value** (`found = false`): `Load_Singleton` leaves the default the
+compiler pushed (`Cloning_Push` of the zero value) where it is. -/
+theorem loadSingleton_not_found (code : Code) (lim : Limits) (s : VMState) (name m : String) (sp : Span)
+    (h : lim.hostSingletons.lookup name = none) :
+    step code lim s (.loadSingleton name m) sp = .next (advance s) := by
+  simp [step, h]
+
+/-- **The host provides a value** (`found = true`): the default is popped and the host's value —
+the very value the specification starts the singleton with, `hostToVal` — is pushed instead. -/
+theorem loadSingleton_found (code : Code) (lim : Limits) (s : VMState) (name m : String) (sp : Span)
+    (hv : HostVal) (d : SVal) (rest : List SVal) (v : Val) (st' : St)
+    (h : lim.hostSingletons.lookup name = some hv) (hs : s.stack = d :: rest)
+    (hh : hostToVal hv s.st = (.ok v, st')) :
+    step code lim s (.loadSingleton name m) sp
+      = .next (advance (push1 { s with stack := rest, st := st' } v)) := by
+  simp [step, h, pop1, hs, runM, hh]
+
+/-- Without the default below it (never in compiled code: `compileSingletonInit` emits the
+`Cloning_Push` first) a found value makes the Go code pop an empty stack: the panic outcome. -/
+theorem loadSingleton_found_empty (code : Code) (lim : Limits) (s : VMState) (name m : String) (sp : Span)
+    (hv : HostVal) (h : lim.hostSingletons.lookup name = some hv) (hs : s.stack = []) :
+    step code lim s (.loadSingleton name m) sp = .panic "stack underflow" s := by
+  simp [step, h, pop1, hs]
+
+section SingletonWitness
+private def callE (f : String) (args : List Expr) : Expr :=
+  .call sp0 .null (.ident sp0 (.fn [] .null) f false true false) (args.map fun a => ("", a)) false
+private def printE (args : List Expr) : Stmt :=
+  .exprS sp0 (.call sp0 .null (.ident sp0 (.fn [] .null) "println" false false false) (args.map fun a => ("", a)) false)
+private def cfgTy : Ty := .obj [("n", .int), ("l", .list .int)]
+/-- `$C = { n: int, l: [int] }; $K = int;`
+`fn f(c: $C, k: $K, a: int) { println(c.n + k + a); c.n = c.n + 1; }`
+`fn main() { f(10); f(20); println($C.n); }` -/
+private def singProg : Program :=
+  [{ name := "main", imports := [], singletons := [("$C", cfgTy), ("$K", .int)], globals := [], nImpls := 0,
+     fns := [
+       ⟨sp0, "f", [⟨"c", cfgTy, true, "$C"⟩, ⟨"k", .int, true, "$K"⟩, ⟨"a", .int, false, ""⟩], .null, 0, false,
+         .mk sp0 .null [
+           printE [.infix sp0 .int .add (.infix sp0 .int .add (.member sp0 .int (.ident sp0 cfgTy "c" false false false) "n" .dot)
+             (.ident sp0 .int "k" false false false)) (.ident sp0 .int "a" false false false)],
+           .exprS sp0 (.assign sp0 none (.member sp0 .int (.ident sp0 cfgTy "c" false false false) "n" .dot)
+             (.infix sp0 .int .add (.member sp0 .int (.ident sp0 cfgTy "c" false false false) "n" .dot) (.int sp0 1)))] none⟩,
+       ⟨sp0, "main", [], .null, 0, false,
+         .mk sp0 .null [.exprS sp0 (callE "f" [.int sp0 10]), .exprS sp0 (callE "f" [.int sp0 20]),
+           printE [.member sp0 .int (.ident sp0 cfgTy "$C" false false true) "n" .dot]] none⟩] }]
+private def singHost : HostSingletons := [("$C", .obj [("n", .int 5), ("l", .list [.int 1])]), ("$K", .int 100)]
+
+/-- The callers pass one argument; `c` and `k` are the singletons, the update through `c` is seen
+by the next call and by `$C`. Host-provided values: specification … -/
+example : (match runProgram { prog := singProg, hostSingletons := singHost } 100 with | .ok out _ => out | _ => "?")
+    = "115\n126\n7\n" := by
+  decide +kernel
+/-- … and compiled program on the VM (clean core afterwards). -/
+example : (match compile singProg "main" 100 with
+    | .ok c => (match runMain c { hostSingletons := singHost } 50 1000 with
+      | .ok s => (s.st.out, s.stack.length, s.mp, s.handlers.length) | _ => ("?", 0, 0, 0))
+    | .error e => (e, 0, 0, 0)) = ("115\n126\n7\n", 0, 0, 0) := by
+  decide +kernel
+/-- Nothing provided: zero values, on both sides. -/
+example : (match runProgram { prog := singProg } 100 with | .ok out _ => out | _ => "?") = "10\n21\n2\n" := by
+  decide +kernel
+example : (match compile singProg "main" 100 with
+    | .ok c => (match runMain c {} 50 1000 with | .ok s => s.st.out | _ => "?")
+    | .error e => e) = "10\n21\n2\n" := by
+  decide +kernel
+end SingletonWitness
+
 end HmsProofs.C01VM
